@@ -62,6 +62,12 @@ ObjUses(x) == <<EMem(x, N_a), EMem(x, N_b),
 NestUses(x) == <<ECall(N_hn, <<EObj(<<EFld(N_o, x)>>)>>), Add(ECall(N_hn, <<EObj(<<EFld(N_o, x)>>)>>), EInt(1)),
                  ECall(N_hn, <<ECall(N_id, <<EObj(<<EFld(N_o, x)>>)>>)>>)>>
 BotE == ESub(EList(<<>>), EInt(0))
+DupProgs == <<EObj(<<EFld(N_a, EInt(1)), EFld(N_a, EInt(2))>>), EObj(<<EFld(N_a, EInt(1)), EFld(N_b, EInt(2)), EFld(N_a, S(<<120>>))>>),
+              EObj(<<EFld(N_a, EInt(1)), EFld(N_b, EInt(2)), EFld(N_b, EInt(3))>>), EObj(<<EFld(N_a, EInt(1)), EFld(N_a, EInt(2)), EFld(N_a, EInt(3))>>),
+              EMem(EObj(<<EFld(N_a, EInt(1)), EFld(N_b, S(<<120>>)), EFld(N_a, S(<<111>>))>>), N_a),
+              EList(<<EObj(<<EFld(N_b, EInt(1)), EFld(N_a, EInt(2)), EFld(N_b, EInt(3))>>)>>),
+              ECall(N_len, <<EList(<<EObj(<<EFld(N_a, EInt(1)), EFld(N_a, EInt(2))>>)>>)>>),
+              EObj(<<EFld(N_c, EObj(<<EFld(N_a, EInt(1)), EFld(N_a, EInt(2))>>))>>), ECall(N_string, <<EObj(<<EFld(N_a, Var(N_n)), EFld(N_a, Var(N_s))>>)>>)>>
 BotProgs == <<EMap(<<EPair(BotE, EInt(1))>>), ECall(N_len, <<EMap(<<EPair(BotE, EInt(1))>>)>>), EMap(<<EPair(EInt(1), BotE)>>),
               EMap(<<EPair(EInt(1), EInt(2)), EPair(BotE, EInt(1))>>), EList(<<BotE, EInt(1)>>), EList(<<EInt(1), BotE>>),
               If(Var(N_b), BotE, EInt(1)), If(Var(N_b), EInt(1), BotE), Add(BotE, EInt(1)), ESub(Var(N_xs), BotE),
@@ -70,7 +76,7 @@ BotProgs == <<EMap(<<EPair(BotE, EInt(1))>>), ECall(N_len, <<EMap(<<EPair(BotE, 
               ECall(N_pick, <<BotE, EInt(1)>>), ECall(N_pick, <<EInt(1), BotE>>), ECall(N_eqeq, <<BotE, BotE>>),
               EMap(<<EPair(If(Var(N_b), BotE, BotE), Var(N_b))>>), ECall(N_union, <<EList(<<BotE>>), Var(N_xs)>>)>>
 ObjProgs == Concat(Map1(ObjX, ObjUses)) \o ListX \o Concat(Map1(ObjLeaves, NestUses)) \o BotProgs
-              \o <<ECall(N_hn, <<Var(N_ob)>>), ECall(N_hn, <<EObj(<<EFld(N_o, EInt(1))>>)>>), ECall(N_hn, <<EObj(<<EFld(N_o, Var(N_od))>>)>>)>>
+              \o <<ECall(N_hn, <<Var(N_ob)>>), ECall(N_hn, <<EObj(<<EFld(N_o, EInt(1))>>)>>), ECall(N_hn, <<EObj(<<EFld(N_o, Var(N_od))>>)>>)>> \o DupProgs
 
 (* ------------------------------------------------------------------ C02 *)
 Big(neg, d, r) == ENum([k |-> "big", neg |-> neg, d |-> d, r |-> r])
@@ -331,6 +337,21 @@ BcProgs ==
     \o Concat(Map1(<<53, 54, 55, 56, 57>>, LAMBDA n :
           <<Add(FoldLeft(LAMBDA acc, i : Add(acc, EInt(1)), EInt(1), Rep(0, n - 1)), If(Var(N_b), EInt(10), EInt(20))),
             Add(FoldLeft(LAMBDA acc, i : Add(acc, EInt(1)), EInt(1), Rep(0, n - 1)), If(Not(Var(N_c)), EInt(10), EInt(20)))>>))
+    \* a conditional that is the LAST operand of an operator / call / literal inside a branch of another conditional
+    \o Prod2(BVars, BVars, LAMBDA a, b : If(a, Add(EInt(1), If(b, EInt(2), EInt(3))), EInt(4)))
+    \o Prod2(BVars, BVars, LAMBDA a, b : AndE(a, Gt(Var(N_n), If(b, EInt(1), EInt(10)))))
+    \o Prod2(BVars, BVars, LAMBDA a, b : If(a, ECall(N_max, <<Var(N_n), If(b, EInt(5), EInt(10))>>), EInt(0)))
+    \o Prod3(BVars, BVars, BVars, LAMBDA c, a, b : If(c, If(a, EInt(0), Add(EInt(1), If(b, EInt(2), EInt(3)))), EInt(9)))
+    \o Prod2(BVars, BVars, LAMBDA a, b : ESub(If(a, EList(<<EInt(7), If(b, EInt(1), EInt(2))>>), EList(<<EInt(8), EInt(9)>>)), EInt(1)))
+    \o Prod2(BVars, BVars, LAMBDA a, b : If(a, ESub(Var(N_xs), If(b, EInt(0), EInt(1))), Neg(If(b, EInt(1), EInt(2)))))
+    \o Prod2(BVars, BVars, LAMBDA a, b : OrE(a, Not(AndE(b, Gt(If(a, EInt(1), EInt(2)), EInt(1))))))
+    \* conditionals whose branches are literals with constant keys / names around variables
+    \o Prod2(BVars, <<Var(N_n), EInt(3)>>, LAMBDA a, x : ESub(If(a, EMap(<<EPair(S(<<114>>), x)>>), EMap(<<EPair(S(<<114>>), EInt(0))>>)), S(<<114>>)))
+    \o Prod2(BVars, <<Var(N_s), S(<<122>>)>>, LAMBDA a, x : ECall(N_get, <<If(a, EMap(<<EPair(S(<<110>>), x)>>), EMap(<<EPair(S(<<110>>), S(<<111>>))>>)), S(<<116>>), S(<<63>>)>>))
+    \o Map1(BVars, LAMBDA a : If(a, EList(<<EMap(<<EPair(S(<<107>>), Var(N_n))>>)>>), EList(<<EMap(<<EPair(S(<<107>>), EInt(1))>>)>>)))
+    \o Map1(BVars, LAMBDA a : EMem(If(a, EObj(<<EFld(N_a, EMap(<<EPair(EInt(1), Var(N_s))>>))>>), EObj(<<EFld(N_a, EMap(<<EPair(EInt(1), S(<<120>>))>>))>>)), N_a))
+    \o Map1(BVars, LAMBDA a : OrE(a, ECall(N_isset, <<EMap(<<EPair(S(<<107>>), Var(N_n))>>), Var(N_s)>>)))
+    \o Map1(BVars, LAMBDA a : ECall(N_lif, <<a, EMap(<<EPair(S(<<107>>), Var(N_n))>>), EMap(<<EPair(S(<<106>>), Var(N_p))>>)>>))
     \* an operand whose constant index is a given byte value, then an operator
     \o Concat(Map1(<<1, 2, 54, 55, 56, 57, 255, 256, 257, 310, 311, 312>>, LAMBDA n :
           <<ESub(EList(Rep(EBool(TRUE), n) \o <<Not(Var(N_c))>>), EInt(n)),
@@ -368,7 +389,11 @@ SameProg(x, y, scalar) ==
   EList(<<Eq(L1(x), L1(y)), Eq(LenOf(ECall(N_union, <<L1(y), L1(x)>>)), EInt(1)),
           Eq(LenOf(ECall(N_union, <<L1(x), L1(y)>>)), EInt(1)),
           Eq(LenOf(ECall(N_intersect, <<L1(x), L1(y)>>)), EInt(1)),
-          Eq(LenOf(ECall(N_diff, <<L1(x), L1(y)>>)), EInt(0))>>
+          Eq(LenOf(ECall(N_diff, <<L1(x), L1(y)>>)), EInt(0)),
+          \* ... also when the other operand is empty (an empty list of the right type: [x] without x)
+          Eq(LenOf(ECall(N_union, <<EList(<<x, y>>), ECall(N_diff, <<L1(x), L1(x)>>)>>)), EInt(1)),
+          Eq(LenOf(ECall(N_union, <<ECall(N_diff, <<L1(y), L1(y)>>), EList(<<y, x>>)>>)), EInt(1)),
+          Eq(LenOf(ECall(N_diff, <<EList(<<x, y>>), ECall(N_diff, <<L1(y), L1(y)>>)>>)), EInt(1))>>
         \o (IF scalar THEN <<Eq(LenOf(EMap(<<EPair(x, EInt(0)), EPair(y, EInt(0))>>)), EInt(1)),
                              ECall(N_isset, <<EMap(<<EPair(x, EInt(0))>>), y>>)>> ELSE <<>>))
 \* ... and numbers a hair (2^-32 < 1e-9) beside an integer, with the integers on either side of them
@@ -428,6 +453,8 @@ DbgProgs0 == <<
     Neg(Neg(Var(N_n))), Not(Not(Var(N_b))), Add(Add(Add(Var(N_n), Var(N_n)), Var(N_n)), Var(N_n)),
     Gt(ECall(N_minus, <<Var(N_d), Var(N_tm)>>), EInt(0)), ECall(N_isset, <<Var(N_m), Var(N_s)>>),
     EMap(<<EPair(Var(N_s), Var(N_n)), EPair(Add(Var(N_s), S(<<50>>)), ECall(N_len, <<Var(N_xs)>>))>>),
+    ESub(Var(N_m), ESub(Var(N_ss), EInt(0))), Add(ESub(Var(N_m), ESub(Var(N_ss), EInt(1))), Var(N_n)),
+    ESub(ESub(EList(<<Var(N_m)>>), EInt(5)), ESub(Var(N_ss), EInt(9))), ESub(Var(N_mm), Var(N_p)), ESub(Var(N_xs), ESub(Var(N_xs), EInt(0))),
     Var(N_n), EInt(1), S(<<97>>), Add(EInt(1), EInt(2)), ECall(N_len, <<Var(N_u)>>)>>
 DbgProgs == Map1(DbgProgs0, LAMBDA e : InEnvId(e, "E0"))
               \* ... and, through closure.DebugCompile on an engine with user functions, terms evaluated several times / never
